@@ -78,7 +78,7 @@ fn scenario(name: &'static str, consumers: Vec<COp>, event: Event, cancel_first:
         let mut cancelled = None;
         if k < 5 {
             tryv!(cx.quiesce_until_polls("client:00", k as u32).await);
-            l.handles[0].abort();
+            cx.abort_now(&l.handles[0]).await;
             cancelled = Some(0);
         }
         tryv!(cx.quiesce().await);
